@@ -56,7 +56,7 @@ def angularSpectrum(inputComplexAmp, wvl, inputSpacing, outputSpacing, z):
     fsq = fX**2 + fY**2
 
     #Scaling Param
-    mag = float(outputSpacing)/inputSpacing
+    mag = outputSpacing/inputSpacing    #(both in double precision by now; float() refused a one-element array)
 
     #Observation Plane Co-ords
     x2,y2 = numpy.meshgrid( outputSpacing*(numpy.arange(N) - N//2),
@@ -136,7 +136,7 @@ def twoStepFresnel(Uin, wvl, d1, d2, z):
                             (numpy.arange(N) - N//2) * d1 )
 
     #magnification
-    m = float(d2)/d1
+    m = d2/d1    #(both in double precision by now; float() refused a one-element array)
 
     #For m != 1 the intermediate plane lies at z/(1-m) and two quadratic
     #phases of ~1/|1-m| radians have to cancel: spacings that are equal up to
